@@ -16,9 +16,10 @@ func TestC18(t *testing.T) {
 			nd := rapid.IntRange(4, 24).Draw(rt, "ndocs")
 			c := &core.Case{Prop: "C18", Kind: "workload"}
 			deep := map[int]bool{}
+			longStr := map[int]bool{}
 			for i := 0; i < nd; i++ {
 				var b []byte
-				dk := rapid.IntRange(0, 6).Draw(rt, "dockind")
+				dk := rapid.IntRange(0, 7).Draw(rt, "dockind")
 				if i == 0 && rapid.IntRange(0, 5).Draw(rt, "deepround?") == 0 {
 					dk = 99 // one depth-limit input in about one round out of six
 				}
@@ -36,6 +37,18 @@ func TestC18(t *testing.T) {
 				case 6:
 					b = gen.NestSpec{Depth: rapid.IntRange(2, 40).Draw(rt, "depth"), Pattern: gen.NestPatterns[rapid.IntRange(0, len(gen.NestPatterns)-1).Draw(rt, "pat")],
 						Close: rapid.IntRange(0, 40).Draw(rt, "close"), Bottom: []string{"1", `"x"`, "", "]"}[rapid.IntRange(0, 3).Draw(rt, "bottom")]}.Build()
+				case 7:
+					// a long string with escapes, different text in every input (scratch space of
+					// one caller showing up in another caller's result is then visible); over
+					// 1 KiB, 4 KiB and 16 KiB so that size-gated reuse of working buffers is reached
+					n := []int{300, 1100, 1100, 4200, 17000}[rapid.IntRange(0, 4).Draw(rt, "strlen")]
+					unit := []string{`\n`, `\u00e9`, `\"`, `\ud83d\ude00`, `\\`}[rapid.IntRange(0, 4).Draw(rt, "unit")] + string(rune('a'+i%26)) + string(rune('A'+i%26))
+					b = append(b, '"')
+					for len(b) < n {
+						b = append(b, unit...)
+					}
+					b = append(b, '"')
+					longStr[i] = true
 				case 0:
 					b = gen.Str(rt, nil, 8)
 				case 1:
@@ -77,6 +90,11 @@ func TestC18(t *testing.T) {
 						fn = skipFamily[fn%len(skipFamily)]
 						r.Label("op.on-depth-limit-input")
 					}
+				}
+				if longStr[doc] && i%3 != 0 {
+					// mostly the string readers, with and without a caller-owned working buffer
+					fn = []int{6, 13, 21, 12, 13, 6, 3, 4, 21, 22}[fn%10]
+					r.Label("op.string-reader-on-long-escaped-string")
 				}
 				c.Ints = append(c.Ints, int64(fn), int64(doc))
 			}
